@@ -18,7 +18,8 @@ SCOPE = ("every cube of the scope = every list of 0-3 (thorough: also 4) row-ali
          "N = 3 with one axis over {0,1,2}, commons {0,1,2} per dimension (most frequent, rare, absent from the data); dimensions with two and "
          "three axes (N <= 2, C, D <= 2, up to three dimensions) giving scaffold axes; inferred shape for every case and an explicit padded "
          "shape (+1/+2 per axis) for N <= 3 (N <= 2 for 3 dims over {0,1,2}); extent-boundary cases (257,2), (2,129), (256,2), (2,128) padded, "
-         "with the top category present, and with it as the common value; 0 dims: ccube([]).count(N=n), n <= 4. Thorough adds N = 5 (1-2 dims), "
+         "with the top category present, and with it as the common value; lopsided family: 257/300/600 rows, an entry of 1-2 rows (first, last, row 256) against an "
+         "entry of (nearly) all rows, 2-3 dims in both orders; 0 dims: ccube([]).count(N=n), n <= 4. Thorough adds N = 5 (1-2 dims), "
          "3 dims N = 3 over {0,1,2}, 4 dims N <= 3 exhaustive, 4 dims N = 4, 5 sampled with the seed, extents 256/257/65536/65537 on each axis "
          "of a 4-dim cube, and the explicit shapes left out above")
 RULES = {
@@ -54,6 +55,21 @@ EXPECT = {
 PARTS = {"C02": ["count"], "C14": ["walk", "count1"]}
 
 
+def _walk_contract_binds():
+    """The per-branch contract of the private `_walk` is stated for (self, dims, base_coords, base_rowids, funcs)."""
+    import ast
+
+    from .. import env
+
+    for c in ast.parse(env.read_source("ccubes.py")).body:
+        if isinstance(c, ast.ClassDef) and c.name == "ccube":
+            for m in c.body:
+                if isinstance(m, ast.FunctionDef) and m.name == "_walk":
+                    a = m.args
+                    return len(a.args) == 5 and not (a.defaults or a.vararg or a.kwarg or a.kwonlyargs or a.posonlyargs)
+    return False
+
+
 def run(ctx, prop=PROP):
     thorough = ctx.tier == "thorough"
     extra = {"parts": PARTS[prop], "seed": int(ctx.seed), "walk_contracts": bool(prop == "C14" or thorough)}
@@ -82,8 +98,13 @@ def run(ctx, prop=PROP):
         sym = {"what": "real marginal differencing executed on z3 terms (object-dtype region): result == per-cell symbol for ALL cell contents; bounded in shape",
                "obligations": len(res), "discharged": len(res) - len(badsym), "solver_s": round(secs, 2),
                "samples": [r[0] for r in res[:: max(1, len(res) // 5)]][:6]}
+    expect = EXPECT[prop]
+    if prop == "C14" and not _walk_contract_binds():
+        expect = [e for e in expect if not e.startswith("_walk/")]
+        ctx.notes.append("proof_stale: the private ccube._walk no longer has the signature its per-branch run-time contract is stated for; "
+                         "the contracts of walk / interactions judge the complete trace")
     runner.report(ctx, mon, totals, lambda ob: contracts_cube_count.property_of(ob) == prop, RULES[prop],
-                  expect_clauses=EXPECT[prop], exhaustive=not thorough,
+                  expect_clauses=expect, exhaustive=not thorough,
                   extra_cov={"cases_by_family": fams, "cases": int(totals["jobs"]), "parts": PARTS[prop],
                              "sampled_families": ["4d-sampled"] if thorough else []})
     if sym:
